@@ -485,6 +485,9 @@ void scan_deps(const std::string& orig_portname, std::string cur_portname,
         return abs;
     };
 
+    // a sub-tree can be enabled by a port inside itself ("sub/on" on "sub/"):
+    // that port, and the message itself, are not their own dependencies
+    const std::string start_portname = cur_portname;
     // this port and all parent ports can be enabled by another port, so check them all
     bool is_parent = false;
     for(std::string::size_type last_slash;
@@ -506,6 +509,8 @@ void scan_deps(const std::string& orig_portname, std::string cur_portname,
                     if(!*enabled_by) // behind the trailing ',' of rDepends
                         break;
                     std::string abs = rel2abs(enabled_by, cur_portname);
+                    if(abs == orig_portname || abs == start_portname)
+                        continue;
                     auto itr = message_map.find(abs);
                     if(itr != message_map.end())  // port is in the savefile
                     {
